@@ -19,6 +19,8 @@ type IntsBuilder struct {
 	FinalAppsMap syslutil.StrSet
 	Deps         syslutil.StrSet
 	DepsOut      []AppDependency
+	// passthrough endpoints already walked (passthrough applications may call each other in a cycle)
+	walked syslutil.StrSet
 }
 
 func sortedSlice(endpts map[string]*sysl.Endpoint) []string {
@@ -40,6 +42,7 @@ func MakeBuilderfromStmt(m *sysl.Module, stmts []*sysl.Statement, excludes, pass
 		FinalAppsMap: syslutil.StrSet{},
 		Deps:         syslutil.StrSet{},
 		DepsOut:      []AppDependency{},
+		walked:       syslutil.StrSet{},
 	}
 
 	collector := endpointWildcard
@@ -138,6 +141,11 @@ func (b *IntsBuilder) MyCallers(sourceApp, epname string, t *sysl.Statement) {
 
 func (b *IntsBuilder) WalkPassthrough(appname, epname string) {
 	if b.Passthroughs.Contains(appname) {
+		key := appname + " <- " + epname
+		if b.walked.Contains(key) {
+			return
+		}
+		b.walked.Insert(key)
 		endpt := b.M.GetApps()[appname].GetEndpoints()[epname]
 		ProcessCalls(appname, epname, endpt.GetStmt(), b.ProcessExcludeAndPassthrough)
 	}
